@@ -14,7 +14,17 @@ type Engine struct {
 // Evaluate executes all of the expressions and returns the final result.
 //
 // Evaluate expects that there is at least one document provided.
-func (e *Engine) Evaluate(documents []*gedcom.Document) (interface{}, error) {
+func (e *Engine) Evaluate(documents []*gedcom.Document) (result interface{}, err error) {
+	// Queries are user input. A query that cannot be evaluated (for example
+	// because a function receives a value of the wrong type) must be reported
+	// as an error rather than crashing the program.
+	defer func() {
+		if r := recover(); r != nil {
+			result = nil
+			err = fmt.Errorf("cannot evaluate query: %v", r)
+		}
+	}()
+
 	// Before we begin we will setup the Document variables. Each document, in
 	// order will be given Document1, Document2, ...
 	for i, document := range documents {
